@@ -18,10 +18,14 @@
               and sort by ORDER KEY) is the specification's node-set (by TREE POSITION);
               every node-set value of the model is in document order without duplicates (C07);
       rung 1  navigation: child, attribute, self, descendant, descendant-or-self axes and the
-              string-values of elements and leaves agree between model and specification.
-    Not proved: parent / ancestor / sibling / following / preceding axes, node tests (need the
-    namespace theorem of C10: the dom's expanded names are those of Namespaces in XML), the
-    induction over expressions, the function library (C09).  For everything that is not proved the
+              string-values of elements and leaves agree between model and specification;
+              node tests agree given [NamesOk] (the dom's expanded names are those of Namespaces
+              in XML: the statement of C10, decidable: [names_ok_b]);
+              WHOLE QUERIES that are one location path without predicates over these axes, with
+              any node tests, [/] and [//], relative or absolute: [query] = [spec_query]
+              ([C05_rung1_paths_partial]).
+    Not proved: parent / ancestor / sibling / following / preceding axes, predicates and the
+    induction over all expressions, comparisons, the function library (C09).  For everything that is not proved the
     equality is TESTED on every run: checks/C05.py evaluates implementation, model and
     specification on the same generated cases (and an exhaustive axis x test x predicate family).
 
@@ -35,7 +39,7 @@ From Coq Require Import List NArith Bool Sorting.Sorted.
 From XmlRs Require Import Base.CPred Model.XPathAst Model.XDoc Model.XDocCheck Model.XPathEval.
 From XmlRs Require Import Spec.XPath10.
 From XmlRs Require Import Proofs.XPathNav Proofs.XPathSort Proofs.XPathCanon Proofs.XPathRefine
-  Proofs.XPathExamples Proofs.XPathWitness.
+  Proofs.XPathRefinePaths Proofs.XPathExamples Proofs.XPathWitness.
 Import ListNotations.
 
 (** what the model's value denotes in the specification *)
@@ -89,12 +93,54 @@ Theorem C05_rung1_string_value_element_partial :
     string_value doc i = Ok (s_string_value doc (Row i)).
 Proof. intros doc i Hinv Hs. exact (string_value_agrees doc Hinv Hs i). Qed.
 
+(** node tests *)
+Theorem C05_rung1_node_test_partial :
+  forall (doc : xdoc), NamesOk doc ->
+  forall (ns : list (option str * str)), ns_lookup ns None = None ->
+  forall (a : axis_spec) (t : node_test) (i : node), good doc i -> test_bound ns t ->
+    test_rel (eval_node_test doc ns a t i) (s_test doc ns (axis_of a) t (Row i)).
+Proof. exact node_test_agrees. Qed.
+
+(** a query that is one predicate-free location path over the child, attribute, self, descendant,
+    descendant-or-self axes (abbreviated or not), any node tests with bound prefixes, steps joined by
+    [/] or [//], relative or absolute, has the value XPath 1.0 prescribes: the same nodes in the
+    same order, and the context is returned unchanged *)
+Theorem C05_rung1_paths_partial :
+  forall (doc : xdoc), DocInv doc -> SpecShape doc -> NamesOk doc ->
+  forall (ns : list (option str * str)), ns_lookup ns None = None ->
+  forall (p : path_expr) (c : ctx) (pos size : N), c_ns c = ns -> simple_path ns p ->
+  exists lm : list node,
+    query doc (path_query p) c = (Ok (XNodes lm), c) /\
+    spec_query doc ns pos size (path_query p) = Some (SNodes (map Row lm)).
+Proof. exact path_query_agrees. Qed.
+
+Theorem C05_names_ok_decidable : forall doc : xdoc, names_ok_b doc = true -> NamesOk doc.
+Proof. exact names_ok_b_sound. Qed.
+
 Theorem C05_spec_shape_decidable : forall doc : xdoc, spec_shape_b doc = true -> SpecShape doc.
 Proof. exact spec_shape_b_sound. Qed.
 
 (** the hypotheses are satisfiable, and on the example the whole equality holds *)
 Example C05_example_hypotheses : DocInv ex_doc /\ SpecShape ex_doc.
 Proof. split; [exact ex_doc_inv|apply spec_shape_b_sound; vm_compute; reflexivity]. Qed.
+
+(** <r xmlns:p="urn:p" a="1"><b p:x="2">t<p:e/></b><c><f/></c><d/></r> with p bound to urn:p:
+    //b/p:e, /r//node(), //@star and r/b/@p:x are instances of [C05_rung1_paths_partial] *)
+Definition c05_ctx : ctx := add_ns (Some [112]%N) [117;114;110;58;112]%N ctx_default.
+Example C05_example_paths_hypotheses :
+  DocInv path_doc /\ SpecShape path_doc /\ NamesOk path_doc /\ ns_lookup (c_ns c05_ctx) None = None.
+Proof.
+  split; [apply Proofs.XPathDocCheck.doc_inv_b_sound; vm_compute; reflexivity|].
+  split; [apply spec_shape_b_sound; vm_compute; reflexivity|].
+  split; [apply names_ok_b_sound; vm_compute; reflexivity|reflexivity].
+Qed.
+Example C05_example_paths_values :
+  fst (query path_doc path_doc_e0 c05_ctx) = Ok (XNodes [11]%N) /\
+  spec_query path_doc (c_ns c05_ctx) 0 0 path_doc_e0 = Some (SNodes [Row 11%N]) /\
+  value_abs (fst (query path_doc path_doc_e1 c05_ctx)) = spec_query path_doc (c_ns c05_ctx) 0 0 path_doc_e1 /\
+  value_abs (fst (query path_doc path_doc_e3 c05_ctx)) = spec_query path_doc (c_ns c05_ctx) 0 0 path_doc_e3 /\
+  fst (query path_doc path_doc_e3 c05_ctx) = Ok (XNodes [8]%N).
+Proof. vm_compute. repeat split; reflexivity. Qed.
 
 Example C05_example_refines :
   value_abs (fst (query ex_doc ex_doc_e0 ctx_default)) = spec_query ex_doc [] 0 0 ex_doc_e0 /\
@@ -138,3 +184,5 @@ Print Assumptions C05_rung1_axis_child_partial.
 Print Assumptions C05_rung1_axis_descendant_partial.
 Print Assumptions C05_rung1_axis_descendant_or_self_partial.
 Print Assumptions C05_rung1_string_value_element_partial.
+Print Assumptions C05_rung1_node_test_partial.
+Print Assumptions C05_rung1_paths_partial.
